@@ -12,8 +12,23 @@ if grep -rq "define MASA_VERIF" config.h 2>/dev/null; then echo "guard unexpecte
 ./configure >"$W"/configure.log 2>&1 || { tail -30 "$W"/configure.log; exit 2; }
 make -j16 >"$W"/make.log 2>&1 || { tail -30 "$W"/make.log; exit 2; }
 make -k -j8 check >"$W"/check.log 2>&1 || true
-pass=$(grep -l "^:test-result: PASS" $(find . -name '*.trs') | wc -l)
-fail=$(grep -L "^:test-result: PASS" $(find . -name '*.trs') | wc -l)
-echo "baseline with guard off: $pass passed, $fail not passed (BASELINE.json expects 139 stable passes counting both name forms; distinct .trs files listed below)"
-grep -L "^:test-result: PASS" $(find . -name '*.trs') | sed 's/^/NOT-PASSED: /' || true
-[ "$fail" -eq 0 ]
+python3 - "$W"/repo <<'PY'
+import json, os, sys, glob
+root = sys.argv[1]
+res = {}
+for p in glob.glob(root + "/*/*.trs"):
+    name = os.path.relpath(p, root)[:-4]
+    r = [l.split(":", 2)[2].strip() for l in open(p) if l.startswith(":test-result:")]
+    res[name] = r[0] if r else "?"
+try:
+    base = [n for n in json.load(open("/root/.vp/BASELINE.json"))["stable_pass"] if "/" in n]
+except OSError:
+    base = sorted(n for n, r in res.items() if r == "PASS")
+missing = [n for n in base if res.get(n) != "PASS"]
+failed = [n for n, r in res.items() if r not in ("PASS", "SKIP")]
+print("baseline with guard off: %d of %d stable baseline tests PASS; %d other results: %s" % (
+    len(base) - len(missing), len(base), len(failed), {n: res[n] for n in failed}))
+for n in missing:
+    print("NOT-PASSED:", n, res.get(n))
+sys.exit(1 if missing or failed else 0)
+PY
